@@ -11,9 +11,40 @@ TRUSTED_BASE = [
 
 FAMILIES = {
     "fields": {"trivial_observed": ["(n0 x n0)"]},
+    "finite": {},
+    "finite_slots": {"impl_family": "finite"},
+    "valid": {},
+    "valid_slots": {"impl_family": "valid"},
 }
 
+REPLAYER_NOTE = ("Trusted: Coq kernel; the Gallina ring buffer (theories/Queue.v, Replayers.v) is hand-written index-for-index after replay.go and tied to it "
+                 "by the correspondence harness, which compares results AND the raw slots/head/tail/count (verif_export.go) after every operation; constants "
+                 "(minimum capacity, grow x2, shrink thresholds, minimum 4) are regenerated from replay.go on every run; the uint64 ID counter is modelled "
+                 "unbounded (theorems assume fewer than 2^64 operations); time is an integer clock injected through ValidReplayer.Now; "
+                 "'reachable' (C18) is identified with 'stored in a slot of the ring'")
+
 PROPS = {
+    "C08": {
+        "families": ["finite"],
+        "level_text": "Proof by refinement: the model of FiniteReplayer (ring buffer with explicit slots and index arithmetic) is proved, for all capacities N>=2, both ID modes and all histories of valid/invalid Puts and Replays with any writer script, to never panic and to produce exactly the outputs of a list specification (last N accepted puts; replay = later matching entries in Put order, stop at first Send error, Flush iff all succeeded; newest/unset/never-issued and evicted-manual IDs: no call at all; consecutive decimal auto IDs; rejected puts not stored). The spec-level clauses are separate theorems. Model = code is checked on every run on exhaustive short and random long histories, including raw slot contents.",
+        "level_note": REPLAYER_NOTE,
+        "rule": "exhaustive histories over an 11-letter abstract alphabet (puts valid/invalid, replays of newest / 2nd / 3rd most recent / unknown / non-canonical / huge numerals / failing Send) up to length 4 (quick) or 6 (thorough) for N in {2,3}, both ID modes, plus seeded random histories (length <= 60/400, N up to 64) with 18 abstract operations; non-trivial = distinct histories (every history executes at least one operation against the real replayer)",
+        "assumptions": ["fewer than 2^64 operations", "automatic mode with a numeral below the oldest buffered ID replays the whole buffer (property silent; documented as part of the specification)"],
+    },
+    "C09": {
+        "families": ["valid"],
+        "level_text": "Proof by refinement: the model of ValidReplayer (ring buffer growing x2, shrinking at <=1/4, GC from the head, optional Put-triggered GC) is proved, for all TTLs, GC intervals, ID modes and all histories of Put/Replay/GC with arbitrary clock readings, to never panic and to equal the list specification (accepted puts not yet collected; Replay filters on expiry and topics). Separate theorems: unexpired events are never dropped (no clock assumption), nothing is sent at or after expiry, newest ID replays nothing, expiries sorted under a non-decreasing clock.",
+        "level_note": REPLAYER_NOTE,
+        "rule": "exhaustive histories over {advance 0,1,ttl-1,ttl} x {put, put 2 topics, put wrong ID, replay newest/2nd/3rd, replay with failing Send, GC} up to length 3 (quick) / 5 (thorough) for GCInterval in {default,0,1,25}, both ID modes, plus seeded random histories in dense/steady/sparse phases (to visit grow/wrap/shrink shapes); non-trivial = distinct histories",
+        "assumptions": ["fewer than 2^64 operations", "clock readings are what ValidReplayer.Now returns (injected)"],
+    },
+    "C18": {
+        "families": ["finite_slots", "valid_slots"],
+        "level_text": "Proof on the slot-explicit ring model: after every operation of every history every occupied slot holds an entry of the abstract buffer (<= N entries for FiniteReplayer; for ValidReplayer, with a non-decreasing clock, no entry with exp <= now right after an explicit or Put-triggered collection). The correspondence compares the raw slots of the real replayers with the model after every operation, and a direct oracle checks occupied slots = count (and no expired slot after GC) on the implementation.",
+        "level_note": REPLAYER_NOTE + "; garbage-collector reachability itself (finalizers) is not modelled",
+        "rule": "same histories as C08/C09; the oracle looks at the raw slots after every operation",
+        "assumptions": ["non-decreasing clock for the 'no expired entry after a collection' clause"],
+    },
     "C14": {
         "families": ["fields"],
         "level_text": "Proof: for every construction route of EventID/EventType (NewID/NewType/ID/Type, UnmarshalText, UnmarshalJSON for any decoded string, Scan for any driver value, the Upgrade header) a Coq theorem states that a set value contains no CR/LF and that a multi-line input yields unset (+error where the route has one), for all byte strings. The Gallina route functions are compared with the real constructors on exhaustive small and random adversarial inputs on every run.",
